@@ -142,4 +142,31 @@ def strip : List Stmt → List Stmt
 /-- `SoftwareManager.uninstall(name)` as translated: `none` = raises -/
 def uninstallBy (body : List Stmt) (n : Node) (name : String) : Option Node := exec name body n none
 
+/-! ### `SoftwareManager.install` -/
+
+/-- statements of `SoftwareManager.install` as far as RAISING is concerned (its effect on the registries is C13's model
+`Registries.Node.installApp / installSvc`) -/
+inductive IStmt
+  | guardRefused        -- `if software_class in self._software_class_to_name_map and software_config is None: <log>; return`
+  | construct           -- `software = software_class(…)`                 (the constructor is assumed to return)
+  | evictIfInstalled    -- `if software.name in self.software: <log>; self.uninstall(software.name)`   raises iff `uninstall` does
+  | write               -- a statement recognised by the translator as unable to raise
+  | ret
+deriving DecidableEq, Repr
+
+/-- Does `install(c, cfg)` return?  `none` = raises.  `ubody` is the translated body of `uninstall`; the node after the
+statement is tracked only as far as the nested `uninstall` changes it (the writes that follow cannot raise in any state). -/
+def execInstall (ubody : List Stmt) (c : Cls) (cfg : Bool) : List IStmt → Node → Option Node
+  | [], n => some n
+  | .guardRefused :: rest, n => if n.installRefused c cfg then some n else execInstall ubody c cfg rest n
+  | .construct :: rest, n => execInstall ubody c cfg rest n
+  | .evictIfInstalled :: rest, n =>
+    if dhas c.name n.software then
+      match uninstallBy ubody n c.name with
+      | some n' => execInstall ubody c cfg rest n'
+      | none => none
+    else execInstall ubody c cfg rest n
+  | .write :: rest, n => execInstall ubody c cfg rest n
+  | .ret :: _, n => some n
+
 end Primaite.EpisodeRegs
